@@ -138,11 +138,8 @@ func findCommands(c *Ctx) []*cmdLit {
 					case "OptionalArgs":
 						cl.OptArgs = st.Val
 					case "Action":
-						if mc, ok := Unwrap(st.Val).(*ssa.MakeClosure); ok {
-							cl.Action, _ = mc.Fn.(*ssa.Function)
-						} else if f, ok := Unwrap(st.Val).(*ssa.Function); ok {
-							cl.Action = f
-						}
+						// a function literal, a named function or a method value
+						cl.Action, _ = ResolveFunc(st.Val)
 					}
 				}
 			}
@@ -176,8 +173,8 @@ func findCommands(c *Ctx) []*cmdLit {
 				// attach to the literal of this function that lacks an Action
 				for _, cl := range out {
 					if cl.Fn == fn && cl.Action == nil {
-						if mc, ok := Unwrap(st.Val).(*ssa.MakeClosure); ok {
-							cl.Action, _ = mc.Fn.(*ssa.Function)
+						if f, _ := ResolveFunc(st.Val); f != nil {
+							cl.Action = f
 							cl.FieldSet["Action"] = true
 						}
 					}
